@@ -109,6 +109,8 @@ pub struct Obs {
     pub new_helpers: Vec<&'static str>,
     /// panics caught in guarded sections: (section, info)
     pub panics: Vec<(String, PanicInfo)>,
+    /// occurrences per panic signature
+    pub panic_counts: std::collections::BTreeMap<String, u32>,
     pub budget: u64,
 }
 
@@ -125,6 +127,7 @@ impl Obs {
             new_types: vec![],
             new_helpers: vec![],
             panics: vec![],
+            panic_counts: Default::default(),
             budget,
         }
     }
@@ -202,7 +205,10 @@ impl Obs {
             Err(p) => {
                 self.d.str("PANIC");
                 self.d.str(&p.signature());
-                if self.panics.len() < 16 {
+                let sig = p.signature();
+                *self.panic_counts.entry(sig.clone()).or_insert(0) += 1;
+                let dup = self.panics.iter().any(|(w, q)| w == what && q.signature() == sig);
+                if !dup && self.panics.len() < 32 {
                     self.panics.push((what.to_string(), p));
                 }
             }
